@@ -557,8 +557,7 @@ def _resize(spec, size):
 
 
 def sub_kwargs(sub):
-    s = dict(sub["settings"])
-    return s
+    return dict(sub["settings"])
 
 
 def build_model(case, ds):
@@ -585,8 +584,6 @@ def build_model(case, ds):
         for vn, size in data["in_sizes"].items():
             lb, ub = np.array(data["lb"][o:o + size]), np.array(data["ub"][o:o + size])
             if reg.get("dist") == "normal":
-                for i in range(size):
-                    pass
                 sp.add_random_vector(vn, "OTNormalDistribution", size=size, mu=((lb + ub) / 2).tolist(),
                                      sigma=((ub - lb) / 4).tolist())
             else:
@@ -1055,20 +1052,16 @@ def judge_interpolation(case, rep, model, x_l, y_l, tag, ttag):
             rep.count("interpolation_skipped_power_precision_loss")
             return False
     scale = np.abs(y_l).max(axis=0) + (y_l.max(axis=0) - y_l.min(axis=0))
-    # The regressor reproduces the *transformed* outputs to rtol of their magnitude; an output transformer whose
-    # image is badly scaled (offset >> variation, e.g. a pipeline stage fitted on untransformed data) amplifies that
-    # rounding when mapped back.  The amplification is estimated from the data (least-squares slope of y against the
-    # transformed outputs), independently of the transformer Jacobians judged in clause 3.
-    try:
-        t_out = model.transformer.get("outputs")
-        if t_out is not None:
-            with np.errstate(all="ignore"):
-                raw = np.asarray(t_out.transform(y_l.copy()))
-            if np.all(np.isfinite(raw)):
-                a_mat = np.linalg.lstsq(np.c_[raw - raw.mean(0), np.ones(len(raw))], y_l, rcond=None)[0][:-1]
-                scale = scale + np.abs(a_mat).T @ np.abs(raw).max(axis=0)
-    except Exception:
-        pass
+    # The regressor reproduces the *transformed* outputs to rtol of their magnitude; mapped back through the inverse
+    # output transformer this is rtol * S (see roundoff_sensitivity), which exceeds rtol*|y| when the image of the
+    # transformer is badly scaled (offset >> variation, e.g. a pipeline stage fitted on untransformed data).
+    t_out = model.transformer.get("outputs")
+    if t_out is not None and isinstance(case["tout"], dict):
+        sens = roundoff_sensitivity(case["tout"], t_out, y_l)
+        if not np.all(np.isfinite(sens)) or np.any(sens > 1e4 * scale):
+            rep.count("interpolation_skipped_ill_scaled_output_transformer")
+            return False
+        scale = scale + sens
     rep.count("interpolation_checked")
     rep.count(f"interpolation_checked:{name}")
     err = np.abs(pred - y_l).max(axis=0)
@@ -1239,6 +1232,49 @@ def fd_map(fun, x, h):
     return r1, r2
 
 
+def roundoff_sensitivity(spec, t, x_rows):
+    """First-order forward-error model of ``inverse_transform(transform(x))`` in floating point.
+
+    Every stage output ``v_s`` (the whole transformer is one stage unless it is a Pipeline) is known to a relative
+    accuracy eps only; mapped back through the inverse of stages s..1 this moves ``x_j`` by
+    ``eps * S_jk``, ``S_jk = |d x_j / d log|v_s,k||``.  Returns ``sum_s sum_k S_jk`` per column of x (max over the rows
+    given), measured by central differences of the inverse maps with a relative step 1e-6; ``inf`` where it cannot be
+    measured.  It only scales tolerances: a well-scaled transformer has S ~ |x| + range(x); an image made of huge
+    offsets with tiny variations (pipeline stages fitted on untransformed data, extreme power exponents) has S >> |x|
+    and cannot be inverted to 1e-10 by any implementation.
+    """
+    stages = [t]
+    if isinstance(spec, dict) and spec["kind"] == "Pipeline":
+        stages = list(t.transformers)
+    x_rows = np.atleast_2d(np.asarray(x_rows, dtype=float))[:3]
+    total = np.zeros(x_rows.shape[1])
+    try:
+        with np.errstate(all="ignore"):
+            for row in x_rows:
+                vals = []
+                v = row.copy()
+                for st in stages:
+                    v = np.asarray(st.transform(v.copy()), dtype=float)
+                    vals.append(v)
+                acc = np.zeros(len(row))
+                for s_idx, v in enumerate(vals):
+                    def back(u, s_idx=s_idx):
+                        for st in stages[s_idx::-1]:
+                            u = np.asarray(st.inverse_transform(u.copy()), dtype=float)
+                        return u
+                    for k in range(len(v)):
+                        d = 1e-6 * max(abs(v[k]), 1e-300)
+                        p_, m_ = v.copy(), v.copy()
+                        p_[k] += d
+                        m_[k] -= d
+                        acc = acc + np.abs(back(p_) - back(m_)) / 2e-6
+                acc = np.where(np.isfinite(acc), acc, np.inf)
+                total = np.maximum(total, acc)
+    except Exception:
+        return np.full(x_rows.shape[1], np.inf)
+    return total
+
+
 def power_spread(spec, t, x):
     """Relative spread of the raw (not standardised) power-transformed sample, per column (None if unknown)."""
     from scipy.stats import boxcox, yeojohnson
@@ -1300,15 +1336,14 @@ def judge_transformer(case, rep):
             rep.case(case_signature(case), False)
             return
         scale = 1e-9 * np.abs(x).max(axis=0)
-    else:
-        # x is recovered as A t + b in floating point: the rounding is ~ eps*|A||t|, far above eps*|x| when the image
-        # is badly scaled (large offsets against small variations, e.g. pipeline stages fitted on untransformed data)
-        try:
-            if xt.shape == x.shape and np.all(np.isfinite(xt)):
-                a_mat = np.linalg.lstsq(np.c_[xt - xt.mean(0), np.ones(n)], x, rcond=None)[0][:-1]
-                scale = scale + 1e2 * np.finfo(float).eps * (np.abs(a_mat).T @ np.abs(xt).max(axis=0))
-        except Exception:
-            pass
+    sens = roundoff_sensitivity(spec, t, x)
+    xmax = np.abs(x).max(axis=0)
+    if not np.all(np.isfinite(sens)) or np.any(1e3 * np.finfo(float).eps * sens > 1e-6 * xmax):
+        # the image is so badly scaled that no implementation can invert it to 1e-6: nothing to judge
+        rep.count("transformer_roundtrip_skipped_ill_scaled_image")
+        rep.case(case_signature(case), False)
+        return
+    scale = scale + 1e3 * np.finfo(float).eps * sens
     rep.count("transformer_roundtrip_checked")
     if xt.shape != x.shape or xb.shape != x.shape:
         rep.violation(f"C18:transformer:{kind}:shape", "transformer", case, observed=[list(xt.shape), list(xb.shape)],
